@@ -58,12 +58,12 @@ def state_key(st):
 
 
 class Graph(object):
-    def __init__(self, edges):
+    def __init__(self, edges, keep_loops=False):
         self.edges = []
         for e in edges:
             e['fs'] = state_key(e['from'])
             e['ts'] = state_key(e['to'])
-            if e['fs'] == e['ts']:
+            if e['fs'] == e['ts'] and not keep_loops:
                 continue        # the terminal stutter step
             self.edges.append(e)
         self.succ = collections.defaultdict(list)
@@ -71,9 +71,12 @@ class Graph(object):
             self.succ[e['fs']].append(e)
         ts = {e['ts'] for e in self.edges}
         inits = {e['fs'] for e in self.edges if e['fs'] not in ts}
-        if len(inits) != 1:
+        if len(inits) == 1:
+            self.init = inits.pop()
+        elif not inits and self.edges:
+            self.init = self.edges[0]['fs']        # breadth-first search: the first edge printed leaves the initial state
+        else:
             raise tlc.TlcError('edge stream has %d initial states' % len(inits))
-        self.init = inits.pop()
         self.states = ts | {self.init}
 
     def tour(self):
